@@ -4,17 +4,34 @@
    A request is abstracted to
 
      route   "unary" (POST /{m}) | "init" (POST /{m}/init) | "exchange" (POST /{m}/exchange)
-     meth    "known" (exists, kind fits the route, succeeds) | "failing" (exists, fits, raises when dispatched)
+             | "upload" (POST /__upload_url__/init, the framework's own RPC route with its own handler)
+     meth    "known" (exists, kind fits the route, succeeds) | "failing" (exists, fits, raises when dispatched;
+             on the upload route: the URL provider raises)
              | "unknown" | "mismatched" (stream method on the unary route / unary method on a stream route)
+             | "describe" (the synthetic unary method __describe__: answered from a pre-built batch and, by design,
+             exempt from the protocol-version gate)
      body    "valid" | "corrupted" | "truncated" | "empty" | "wrong_md" (method name missing or different from the
              URL, request version missing or wrong) | "bad_params" (column missing / extra / wrong type / row count)
              | "bad_version" (protocol_version the server refuses)
+     pkind   which kind of parameter the request exercises (unary / init routes; the wire form differs per kind):
+             "scalar" (bytes column) | "dataclass" (binary column holding a nested Arrow IPC stream)
+             | "enum" (dictionary-encoded member name) | "dict" (map column) | "set" (list column -> frozenset)
+     pval    the VALUE carried in that parameter of an otherwise well-framed request (right column names and types):
+             "ok" | "null" (null for a non-optional parameter) | "unknown_member" (enum: a name that is no member)
+             | "nested_corrupt" (dataclass: bytes that are not Arrow IPC) | "nested_truncated" (nested stream cut
+             inside a message) | "nested_empty" (zero bytes, or a nested stream with a schema and no batch)
+             | "nested_shape" (decodable nested stream of the wrong shape: required field missing, extra rows,
+             no row, field of another type)
      ctype   "correct" | "wrong" | "missing"
      cenc    "none" | "supported" (zstd / gzip, properly encoded) | "unsupported" | "corrupt" (a supported token on
              a body that does not decode)
-     token   "valid" | "tampered" | "missing" | "na"         (state token; exchange route only)
+     token   (state token; exchange route only)  "valid" | "tampered" | "missing" | "na"
+             | "expired" (older than token_ttl) | "foreign_method" (minted by another stream method)
+             | "foreign_principal" (minted for another authenticated caller)
+             | "foreign_call" (cursor token of one stream paired with the call token of another)
      auth    "none" (no authenticator) | "accept" | "reject"
      size    "ok" | "over" (wire body larger than max_request_bytes)
+             | "over_decoded" (wire body within the cap, decoded body larger; needs a supported content encoding)
 
    Faults and the status the statement attaches to each (the pipeline order of the implementation -- size cap,
    content decoding, authentication, content type, method resolution, method kind, request reading, gates --
@@ -24,20 +41,27 @@
        cenc unsupported                            415        meth unknown                   404
        cenc corrupt                                400        meth mismatched                400
        auth reject                                 401        body not valid                 400
-       token tampered / missing                    400
+       token not valid (any of the six classes)    400        parameter value not convertible 400
+                                                              ("parameter rejection": pval # "ok")
 
    No fault: the call is dispatched, the status is 200 and the error marker is present exactly when the method
    raised.  Never a 5xx.  Every response other than 401 and 415 has a decodable Arrow IPC body.               *)
 EXTENDS Naturals, Sequences, FiniteSets
 
-Routes == {"unary", "init", "exchange"}
-Meths == {"known", "failing", "unknown", "mismatched"}
+Routes == {"unary", "init", "exchange", "upload"}
+Meths == {"known", "failing", "unknown", "mismatched", "describe"}
 Bodies == {"valid", "corrupted", "truncated", "empty", "wrong_md", "bad_params", "bad_version"}
 CTypes == {"correct", "wrong", "missing"}
 CEncs == {"none", "supported", "unsupported", "corrupt"}
-Tokens == {"valid", "tampered", "missing", "na"}
+Tokens == {"valid", "tampered", "missing", "expired", "foreign_method", "foreign_principal", "foreign_call", "na"}
+BadTokens == Tokens \ {"valid", "na"}
 Auths == {"none", "accept", "reject"}
-Sizes == {"ok", "over"}
+Sizes == {"ok", "over", "over_decoded"}
+PKinds == {"scalar", "dataclass", "enum", "dict", "set"}
+PVals == {"ok", "null", "unknown_member", "nested_corrupt", "nested_truncated", "nested_empty", "nested_shape"}
+PValsOf(k) == CASE k = "dataclass" -> {"ok", "null", "nested_corrupt", "nested_truncated", "nested_empty", "nested_shape"}
+                [] k = "enum"      -> {"ok", "null", "unknown_member"}
+                [] OTHER           -> {"ok", "null"}
 
 Valid(c) ==
   /\ (c.route = "exchange") <=> (c.token # "na")
@@ -47,30 +71,55 @@ Valid(c) ==
   /\ c.cenc = "corrupt" => c.body = "valid"
   \* an empty body cannot be oversize
   /\ c.size = "over" => c.body # "empty"
+  \* parameter kinds / values: exchange requests carry no parameters; the value defects are kind specific; they are
+  \* crossed with route, method class, content type, supported content encodings and auth, on an otherwise valid,
+  \* in-cap body (the framing faults are already crossed with everything on the scalar rows)
+  /\ c.pval \in PValsOf(c.pkind)
+  /\ c.route \in {"exchange", "upload"} => c.pkind = "scalar" /\ c.pval = "ok"
+  \* __describe__ lives on the unary route only and takes no parameters
+  /\ c.meth = "describe" => c.route = "unary" /\ c.pkind = "scalar" /\ c.pval = "ok" /\ c.body # "bad_params"
+  \* the upload route has one fixed method (metadata naming another one is body = wrong_md)
+  /\ c.route = "upload" => c.meth \in {"known", "failing"}
+                           /\ c.body \in {"valid", "corrupted", "truncated", "empty", "wrong_md"}
+  \* the token classes beyond tampered / missing need a resolvable stream method and an otherwise valid request
+  /\ c.token \in {"expired", "foreign_method", "foreign_principal", "foreign_call"} =>
+        c.meth \in {"known", "failing"} /\ c.body = "valid" /\ c.size = "ok" /\ c.cenc \in {"none", "supported"}
+  /\ c.token = "foreign_principal" => c.auth = "accept"
+  /\ c.size = "over_decoded" => c.cenc = "supported" /\ c.body = "valid"
+  /\ (c.pkind # "scalar" \/ c.pval # "ok") => c.body = "valid" /\ c.size = "ok" /\ c.cenc \in {"none", "supported"}
 
-Space == [route : Routes, meth : Meths, body : Bodies, ctype : CTypes, cenc : CEncs, token : Tokens,
-          auth : Auths, size : Sizes]
-Seeds == {[route |-> r, meth |-> m, body |-> "valid", ctype |-> "correct", cenc |-> "none", token |-> "na",
-           auth |-> a, size |-> "ok"] : r \in Routes, m \in Meths, a \in Auths}
-Expand(p) == {c \in Space : c.route = p.route /\ c.meth = p.meth /\ c.auth = p.auth /\ Valid(c)}
+Space == [route : Routes, meth : Meths, body : Bodies, pkind : PKinds, pval : PVals, ctype : CTypes, cenc : CEncs,
+          token : Tokens, auth : Auths, size : Sizes]
+Seeds == {[route |-> r, meth |-> m, body |-> "valid", pkind |-> "scalar", pval |-> "ok", ctype |-> "correct",
+           cenc |-> "none", token |-> "na", auth |-> a, size |-> "ok"] : r \in Routes, m \in Meths, a \in Auths}
+\* Expand enumerates two record sets per seed instead of filtering Space (705,600 records): the framing rows (scalar
+\* parameter with a good value, everything else free) and the parameter rows (valid in-cap body, the rest free)
+Expand(p) ==
+  LET One(x) == {x}
+      Framing == [route : One(p.route), meth : One(p.meth), auth : One(p.auth), body : Bodies, pkind : One("scalar"),
+                  pval : One("ok"), ctype : CTypes, cenc : CEncs, token : Tokens, size : Sizes]
+      Params  == [route : One(p.route), meth : One(p.meth), auth : One(p.auth), body : One("valid"), pkind : PKinds,
+                  pval : PVals, ctype : CTypes, cenc : {"none", "supported"}, token : Tokens, size : One("ok")]
+  IN {c \in Framing \cup Params : Valid(c)}
 Cases == UNION {Expand(p) : p \in Seeds}
 
 \* ---------------------------------------------------------------- the mapping
 Flag(name, cond) == IF cond THEN {name} ELSE {}
 Faults(c) ==
-       Flag("oversize", c.size = "over")
+       Flag("oversize", c.size # "ok")
   \cup Flag("coding", c.cenc = "unsupported")
   \cup Flag("undecodable", c.cenc = "corrupt")
   \cup Flag("auth", c.auth = "reject")
   \cup Flag("ctype", c.ctype # "correct")
   \cup Flag("unknown", c.meth = "unknown")
   \cup Flag("kind", c.meth = "mismatched")
-  \cup Flag("body", c.body # "valid")
-  \cup Flag("token", c.token \in {"tampered", "missing"})
+  \cup Flag("body", c.body # "valid" /\ ~(c.meth = "describe" /\ c.body = "bad_version"))
+  \cup Flag("param", c.pval # "ok")
+  \cup Flag("token", c.token \in BadTokens)
 
 StatusOf(f) == CASE f = "oversize" -> 413 [] f = "coding" -> 415 [] f = "undecodable" -> 400 [] f = "auth" -> 401
                  [] f = "ctype" -> 415 [] f = "unknown" -> 404 [] f = "kind" -> 400 [] f = "body" -> 400
-                 [] f = "token" -> 400
+                 [] f = "token" -> 400 [] f = "param" -> 400
 
 Admissible(c) == IF Faults(c) = {} THEN {200} ELSE {StatusOf(f) : f \in Faults(c)}
 Dispatched(c) == Faults(c) = {}
@@ -93,6 +142,14 @@ MarkerOnlyOnDispatch(c) == Failed(c) => Dispatched(c)
 SingleFaultExact(c) == Cardinality(Faults(c)) = 1 => Cardinality(Admissible(c)) = 1
 ArrowExceptions(c) == \A s \in Admissible(c) : ~ArrowBody(s) <=> s \in {401, 415}
 AuthIndependentOfRoute(c) == (c.auth = "reject") => 401 \in Admissible(c)
+ParamRejectionIs400(c) ==       \* a value defect alone is a 400 and never a dispatch, whatever the parameter kind
+  /\ c.pval # "ok" => ~Dispatched(c) /\ 400 \in Admissible(c)
+  /\ (c.pval # "ok" /\ Cardinality(Faults(c)) = 1) => Admissible(c) = {400}
+DescribeIgnoresVersion(c) ==    \* a mismatched client must still be able to ask what the server expects
+  (c.meth = "describe" /\ c.body = "bad_version") => Admissible(c) = Admissible([c EXCEPT !.body = "valid"])
+BadTokenIs400(c) == c.token \in BadTokens => ~Dispatched(c) /\ 400 \in Admissible(c)
+ParamKindIrrelevant(c) ==       \* the mapping does not depend on which kind of parameter carries a good value
+  c.pval = "ok" => Admissible(c) = Admissible([c EXCEPT !.pkind = "scalar"])
 
 \* ---------------------------------------------------------------- judging what the real code did
 (* observation o = [status, marker, arrow, errbatch, dispatched]
@@ -100,7 +157,8 @@ AuthIndependentOfRoute(c) == (c.auth = "reject") => 401 \in Admissible(c)
      marker      X-VGI-RPC-Error: true present
      arrow       the body is one or more complete, decodable Arrow IPC streams
      errbatch    ... and one of them carries an EXCEPTION batch
-     dispatched  the implementation method (unary / init) or the stream state's process() (exchange) ran      *)
+     dispatched  the implementation method (unary / init) or the stream state's process() (exchange) ran;
+                 __describe__: the describe payload came back; upload route: the URL provider was called     *)
 Conforms(c, o) ==
        Flag("Status", o.status \notin Admissible(c))
   \cup Flag("No5xx", o.status >= 500)
